@@ -56,7 +56,10 @@ OffSurf  == Path(<< <<"M", -20, -20>>, <<"L", -4, -20>>, <<"L", -4, -4>> >>)
 Bowtie   == PathEO(<< <<"M", 1, 1>>, <<"L", 19, 17>>, <<"L", 19, 1>>, <<"L", 1, 17>>, <<"Z">>,
                       <<"M", 4, 6>>, <<"L", 16, 6>>, <<"L", 16, 14>>, <<"L", 4, 14>> >>)
 Empty    == Path(<<>>)
-LineFirst == Path(<< <<"L", 2, 2>>, <<"L", 18, 4>>, <<"L", 6, 18>> >>)
+\* starts with LineTo; after Close it goes on drawing from the subpath's start (10,2) and is implicitly closed again.
+\* EvenOdd, two wedges hanging from the start point: on a row through both, the implicit closing edge is the second of
+\* four crossings, so losing it would paint the gap between the wedges
+LineFirst == PathEO(<< <<"L", 10, 2>>, <<"L", 18, 18>>, <<"L", 14, 18>>, <<"Z">>, <<"L", 2, 18>>, <<"L", 6, 18>> >>)
 \* begins with Close (a no-op on a fresh path) and then a LineTo that is its start: nothing of an earlier path may leak in
 Sliver   == Path(<< <<"Z">>, <<"L", 1, 9>>, <<"L", 19, 10>>, <<"L", 19, 11>> >>)
 Tall     == Path(<< <<"M", 9, -40>>, <<"L", 12, 60>>, <<"L", 6, 60>> >>)
